@@ -4,7 +4,7 @@
    [option]: "never a panic" is the type of the model; that the implementation behaves like the
    model on malformed bytes is what the correspondence run checks. *)
 From Coq Require Import ZArith List Bool.
-From DosVerif Require Import Base.Val Base.Field Models.Bn Proofs.BnCodecProofs.
+From DosVerif Require Import Base.Val Base.Field Models.Bn Proofs.BnCodecProofs Proofs.BnCodecG2.
 Import ListNotations.
 Local Open Scope Z_scope.
 
@@ -14,6 +14,22 @@ Theorem C11_roundtrip_g1 :
   forall a : jac (K:=Fp), g1_on_curve a = true -> g1_unmarshal (g1_marshal a) = Some (make_affine fp_ops a).
 Proof. exact g1_roundtrip. Qed.
 Print Assumptions C11_roundtrip_g1.
+
+Theorem C11_roundtrip_g2 :
+  forall a : jac (K:=Fp2), g2_on_curve a = true -> g2_unmarshal (g2_marshal a) = Some (make_affine fp2o a).
+Proof. exact g2_roundtrip. Qed.
+Print Assumptions C11_roundtrip_g2.
+
+Theorem C11_injective_g2 :
+  forall a b : jac (K:=Fp2), g2_on_curve a = true -> g2_on_curve b = true ->
+  g2_marshal a = g2_marshal b -> make_affine fp2o a = make_affine fp2o b.
+Proof. exact g2_injective. Qed.
+Print Assumptions C11_injective_g2.
+
+Example C11_g2_generator_roundtrips :
+  g2_on_curve g2_gen = true /\ g2_unmarshal (g2_marshal g2_gen) = Some (make_affine fp2o g2_gen).
+Proof. exact (conj g2_gen_in_subgroup g2_gen_roundtrips). Qed.
+Print Assumptions C11_g2_generator_roundtrips.
 
 Theorem C11_length_g1 : forall a : jac (K:=Fp), length (g1_marshal a) = 64%nat.
 Proof. exact g1_length. Qed.
